@@ -77,16 +77,13 @@ def load_known(prop):
 
 
 def merge_hashfiles(files):
-    s = set()
-    for f in files:
-        a = array.array('Q')
-        try:
-            with open(f, 'rb') as fh:
-                a.frombytes(fh.read())
-        except OSError:
-            continue
-        s.update(a)
-    return len(s)
+    """size of the union of the per-shard sorted hash files (k-way merge in tools/uniq64)"""
+    tool = os.path.join(vbuild.BUILD, 'uniq64')
+    src = os.path.join(VERIF, 'tools', 'uniq64.cpp')
+    if not os.path.exists(tool) or os.path.getmtime(tool) < os.path.getmtime(src):
+        os.makedirs(vbuild.BUILD, exist_ok=True)
+        subprocess.check_call(['clang++', '-O2', '-o', tool, src])
+    return int(subprocess.check_output([tool] + files).split()[0])
 
 
 def run_property(prop, spec, tier, seed, replay=None):
